@@ -393,6 +393,79 @@ fn slice_root<B: BitmapSlice>(
     t
 }
 
+#[derive(Clone, Copy, Debug)]
+enum HistOp {
+    Mem(Op),
+    Reset,
+    Harvest,
+    ResetRange(usize, usize),
+}
+
+/// All sequences of three operations over a reduced alphabet (writes through several routes,
+/// reads, and the three ways of clearing the bitmap) with memory and bitmap carried over; both
+/// oracles are applied after every step, relative to the dirty set observed before it.
+fn histories<B: BitmapSlice>(v: &Verdicts, what: &str, placed: &Placed, vs: &VolatileSlice<B>, bm: &AtomicBitmap, p: usize) -> u64 {
+    let n = placed.len;
+    let alpha: Vec<HistOp> = vec![
+        HistOp::Mem(Op::Write { off: 0, len: p + 1, mis: 1 }),
+        HistOp::Mem(Op::Write { off: p.saturating_sub(1), len: 2, mis: 0 }),
+        HistOp::Mem(Op::RefStore { ty: Ty::U32, off: p }),
+        HistOp::Mem(Op::ArrCopyFrom { ty: Ty::U16, off: 1, n: 3, m: 5 }),
+        HistOp::Mem(Op::SliceCopyToVs { off: 0, len: 4, dst: Dst::Same(p.min(n - 4), 4) }),
+        HistOp::Mem(Op::AtomStore { w: 4, off: 4 }),
+        HistOp::Mem(Op::ReadFrom { off: 2, count: p + 2 }),
+        HistOp::Mem(Op::Read { off: 0, len: 5, mis: 0 }),
+        HistOp::Mem(Op::WriteObj { ty: Ty::U64, off: n - 8 }),
+        HistOp::Reset,
+        HistOp::Harvest,
+        HistOp::ResetRange(0, p + 1),
+    ];
+    let npages = bm.len();
+    let mut t = 0u64;
+    for (i, a) in alpha.iter().enumerate() {
+        for (j, b) in alpha.iter().enumerate() {
+            for (k, c) in alpha.iter().enumerate() {
+                let mut state = labels(n);
+                placed.load(&state);
+                bm.reset();
+                for (step, h) in [a, b, c].into_iter().enumerate() {
+                    t += 1;
+                    let tag = (i * 31 + j * 7 + k + step * 3) as u8 | 1;
+                    match h {
+                        HistOp::Reset => bm.reset(),
+                        HistOp::Harvest => {
+                            let _ = bm.get_and_reset();
+                        }
+                        HistOp::ResetRange(x, l) => bm.reset_addr_range(*x, *l),
+                        HistOp::Mem(op) => {
+                            let dirty_before = dirty_pages(bm);
+                            let exp = model_op(&state, placed.ptr() as usize, op, tag);
+                            let describe = || {
+                                (
+                                    format!("{}/{}/history/{}", v.which, what, op.name()),
+                                    format!("history {:?}; {:?}; {:?} step {}", a, b, c, step),
+                                    json!({"root": what, "len": n, "page_size": p, "history": [format!("{:?}", a), format!("{:?}", b), format!("{:?}", c)], "failing_step": step}),
+                                )
+                            };
+                            if crate::crash::guarded(v.ctx, &describe, || run_op(vs, op, tag)).is_none() {
+                                break;
+                            }
+                            let after = placed.contents();
+                            let dirty_after = dirty_pages(bm);
+                            let cand = exp.mem.iter().position(|m| after == *m);
+                            let written: Option<Vec<(usize, usize)>> = cand.map(|x| exp.written[x].clone());
+                            let rp = || describe().2;
+                            v.judge(what, &format!("history/{}", op.name()), p, npages, 0, &state, &after, &dirty_before, &dirty_after, written.as_deref(), &[], &rp);
+                            state = after;
+                        }
+                    }
+                }
+            }
+        }
+    }
+    t
+}
+
 fn link_kind(l: Link) -> usize {
     match l {
         Link::Subslice(..) => 0,
@@ -416,6 +489,7 @@ fn part_a(v: &Verdicts, n: usize, p: usize, thorough: bool) -> u64 {
         // SAFETY: placed outlives vs
         let vs = unsafe { VolatileSlice::with_bitmap(placed.ptr(), n, bm.slice_at(0), None) };
         t += slice_root(v, "slice/RefSlice", &placed, &vs, &bm, 0, p, true, thorough, if thorough { 3 } else { 2 });
+        t += histories(v, "slice/RefSlice", &placed, &vs, &bm, p);
     }
     // the container is the tail of a larger region: nested base offset
     for k in [1usize, p, p + 1] {
